@@ -2,7 +2,7 @@
  * One run = one scenario; everything observable goes to the history file (text) and the packet file (binary).
  *
  *   svt_scn out=<prefix> w=<W> h=<H> n=<frames> [key=value ...]
- * keys: content=<0 gradient|1 noise|2 moving blocks|3 flat|4 extremes|5 screen-like|6 static column + noisy texture + fast squares|7 static noise (the same noisy picture every frame)|8 zooming / rotating block texture> cseed=<int>
+ * keys: content=<0 gradient|1 noise|2 moving blocks|3 flat|4 extremes|5 screen-like|6 static column + noisy texture + fast squares|7 static noise (the same noisy picture every frame)|8 zooming / rotating block texture|9 flat 0/255 squares inverting every picture> cseed=<int>
  *       bits=<8|10> stride_pad=<int> padfill=<0..255|256 random> scribble=<0|1> (overwrite+free caller buffer after send)
  *       pace=<0 drain at end|1 poll after every send|k>=2 poll every k sends|-1 random polling> pseed=<int> delay_us=<pause between a submission and the poll that follows it>
  *       recon=<0|1> stat=<0|1> decode=<0|1> dec_threads=<int> dec16=<0|1> eos_mode=<0 separate EOS buffer|1 flag on last picture>
@@ -36,6 +36,7 @@ static unsigned rs;
 static unsigned rnd(void) { rs ^= rs << 13; rs ^= rs >> 17; rs ^= rs << 5; return rs; }
 
 static int W, Hh, N, content = 2, cseed = 1, bits = 8, stride_pad = 0, padfill = 0, scribble = 0, pace = 1, pseed = 1, delay_us = 0;
+static int twopass = 0;
 static int recon = 1, stat = 0, decode = 1, dec_threads = 1, dec16 = 0, eos_mode = 0, teardown_after = -1, dumprecon = 0, dumpdec = 0;
 
 static int sample(int k, int x, int y, int plane) {
@@ -52,6 +53,8 @@ static int sample(int k, int x, int y, int plane) {
               break; }
     case 3: v = 128; break;
     case 4: v = ((x + y + k) & 1) ? 255 : 0; break;
+    case 9: { int sh = plane ? 4 : 5; int q_ = 32 >> (cseed % 3); int sq = plane ? q_ / 2 : q_; (void)sh;   /* flat 0 / 255 squares (64, 32 or 16 luma samples by cseed) that invert every picture: full-range flat residuals */
+              v = (((x / (sq * 2 > 0 ? sq * 2 : 1)) + (y / (sq * 2 > 0 ? sq * 2 : 1)) + k) & 1) ? 255 : 0; break; }
     case 6: { int sc = plane ? 2 : 1; int X = x * sc, Y = y * sc;
               if (plane) { v = 128 + (plane == 1 ? 8 : -8); break; }
               if (X < 64) { v = 60 + X + Y / 2; break; }
@@ -157,6 +160,36 @@ static void poll_recon(void) {
 }
 char outp[512] = "scn";
 
+/* twopass=1: a complete first pass over the same pictures with the same settings (rc_firstpass_stats_out = 1); its statistics
+   are handed to the session under test as rc_twopass_stats_in */
+static int first_pass(const EbSvtAv1EncConfiguration *base, void **buf, uint64_t *sz) {
+    EbComponentType *h = NULL; EbSvtAv1EncConfiguration c;
+    memset(&c, 0, sizeof c);
+    if (svt_av1_enc_init_handle(&h, NULL, &c)) return -1;
+    c = *base; c.rc_firstpass_stats_out = 1; c.rc_twopass_stats_in.buf = NULL; c.rc_twopass_stats_in.sz = 0; c.recon_enabled = 0; c.stat_report = 0;
+    if (svt_av1_enc_set_parameter(h, &c) || svt_av1_enc_init(h)) { svt_av1_enc_deinit(h); svt_av1_enc_deinit_handle(h); return -2; }
+    int eos = 0, got = 0;
+    for (int k = 0; k <= N && !eos; k++) {
+        EbBufferHeaderType in; memset(&in, 0, sizeof in); in.size = sizeof in; in.pic_type = EB_AV1_INVALID_PICTURE;
+        EbSvtIOFormat io; uint8_t *base_ = NULL; size_t bsz = 0;
+        if (k < N) { make_picture(k, &io, &base_, &bsz); in.p_buffer = (uint8_t *)&io; in.n_filled_len = (uint32_t)((size_t)W * Hh * 3 / 2 * (bits > 8 ? 2 : 1)); in.pts = 1000 + 3 * (int64_t)k; }
+        else in.flags = EB_BUFFERFLAG_EOS;
+        svt_av1_enc_send_picture(h, &in); free(base_);
+        for (;;) {
+            EbBufferHeaderType *o = NULL; EbErrorType e = svt_av1_enc_get_packet(h, &o, (uint8_t)(k == N));
+            if (e == EB_NoErrorEmptyQueue || !o) break;
+            if (e == EB_ErrorMax) { eos = 1; break; }
+            got++; if (o->flags & EB_BUFFERFLAG_EOS) eos = 1;
+            svt_av1_enc_release_out_buffer(&o);
+            if (eos) break;
+        }
+    }
+    SvtAv1FixedBuf st; int rc = -3;
+    if (svt_av1_enc_get_stream_info(h, SVT_AV1_STREAM_INFO_FIRST_PASS_STATS_OUT, &st) == EB_ErrorNone && st.sz) { *buf = malloc(st.sz); memcpy(*buf, st.buf, st.sz); *sz = st.sz; rc = got; }
+    svt_av1_enc_deinit(h); svt_av1_enc_deinit_handle(h);
+    return rc;
+}
+
 int main(int argc, char **argv) {
     static long long fidx[256], fval[256]; int nf = 0; unsigned long long cpu = 0; int have_cpu = 0;
     for (int i = 1; i < argc; i++) {
@@ -166,7 +199,7 @@ int main(int argc, char **argv) {
         else if (!strcmp(k, "content")) content = atoi(v); else if (!strcmp(k, "cseed")) cseed = atoi(v); else if (!strcmp(k, "bits")) bits = atoi(v);
         else if (!strcmp(k, "stride_pad")) stride_pad = atoi(v); else if (!strcmp(k, "padfill")) padfill = atoi(v); else if (!strcmp(k, "scribble")) scribble = atoi(v);
         else if (!strcmp(k, "pace")) pace = atoi(v); else if (!strcmp(k, "delay_us")) delay_us = atoi(v); else if (!strcmp(k, "pseed")) pseed = atoi(v); else if (!strcmp(k, "recon")) recon = atoi(v);
-        else if (!strcmp(k, "stat")) stat = atoi(v); else if (!strcmp(k, "decode")) decode = atoi(v); else if (!strcmp(k, "dec_threads")) dec_threads = atoi(v);
+        else if (!strcmp(k, "twopass")) twopass = atoi(v); else if (!strcmp(k, "stat")) stat = atoi(v); else if (!strcmp(k, "decode")) decode = atoi(v); else if (!strcmp(k, "dec_threads")) dec_threads = atoi(v);
         else if (!strcmp(k, "dec16")) dec16 = atoi(v); else if (!strcmp(k, "eos_mode")) eos_mode = atoi(v); else if (!strcmp(k, "teardown_after")) teardown_after = atoi(v);
         else if (!strcmp(k, "suffix")) suffix = atoi(v);
         else if (!strcmp(k, "dumprecon")) dumprecon = atoi(v); else if (!strcmp(k, "dumpdec")) dumpdec = atoi(v);
@@ -189,6 +222,12 @@ int main(int argc, char **argv) {
     cfg.frame_rate = 30 << 16; cfg.frame_rate_numerator = 0; cfg.frame_rate_denominator = 0;
     if (have_cpu) cfg.use_cpu_flags = cpu;
     for (int i = 0; i < nf; i++) set_field(&cfg, (int)fidx[i], fval[i]);
+    if (twopass) {
+        void *sb = NULL; uint64_t ssz = 0; int r1 = first_pass(&cfg, &sb, &ssz);
+        fprintf(H, "CALL first_pass %d %llu\n", r1, (unsigned long long)ssz);
+        if (r1 < 0) { fprintf(H, "END first_pass_failed\n"); return 0; }
+        cfg.rc_twopass_stats_in.buf = sb; cfg.rc_twopass_stats_in.sz = ssz;
+    }
     e = svt_av1_enc_set_parameter(enc, &cfg);
     fprintf(H, "CALL enc_set_parameter %x\n", (unsigned)e);
     if (e) { fprintf(H, "END set_parameter_rejected\n"); return 0; }
